@@ -163,7 +163,10 @@ def confront(case, res, periods, rng):
     out = []
     idx = pd.DatetimeIndex([ts(d * 1440).tz_localize(None) for d in days]).date
     eq = pd.DataFrame({"Equity": [float(v) for v in x]}, index=pd.Index(idx))
-    eq.index = pd.to_datetime(eq.index)
+    # the index as a backtest session hands it over (`get_equity_curve()`: plain datetime.date objects) for every other
+    # curve, a DatetimeIndex for the rest
+    if (start + len(x)) % 2:
+        eq.index = pd.to_datetime(eq.index)
 
     def stats_for(scale):
         df = eq.copy()
